@@ -29,6 +29,8 @@ from ..core import (
 from ..gen import DEC_FACTORS, RefTable, mono_mul, mono_str, render_plain, vec_key
 
 AMBIG = "?"
+# the same question in the same stack state of the same registry: floats are compared bit for bit
+BATTERY_REL = float(__import__("os").environ.get("VERIF_C12_REL", "0"))
 BASE_UNITS = ["ua", "ub", "uc", "ud"]
 PARAMS = ["n1", "n2"]
 
@@ -1162,7 +1164,7 @@ class _Run:
             mk = (key, qk, epoch)
             self.col.checks += 1
             if mk in self.memory:
-                if not core.answers_equal(self.memory[mk], a):
+                if not core.answers_equal(self.memory[mk], a, BATTERY_REL):
                     rule = "C12.residue" if not model.stack else "C12.stack-state"
                     self.violate(rule, self.cur_id, {
                         "question": q, "registry": ri, "stack": _stack_json(model),
